@@ -55,6 +55,15 @@ CLAIMS = {
          "_SELECT KEY / UNIQUE directives naming unknown columns through sql.NewTable and sqlcrud.generateTable. Sweeps: typescript, dart (incl. Generate), SQL validators, gounions, randdata on every analysis.Type skeleton "
          "of depth<=1 (quick) / 2 (thorough) over the nine node kinds. NOT decided: the full statement over all well-typed packages (createType on arbitrary go/types graphs, unbounded recursion, packages.Load).",
          "DESIGN.md section 4 (C18)", ""),
+ "C06": ("Bug hunting only for the headline (Dart semantics are not encoded). Decided text clauses: fromJson reads and toJson writes exactly the Go JSON keys in field order with one constructor argument per exported field (symbolic names/tags); "
+         "a class implements exactly its exported unions; the enum value table lists exactly the exported constants parallel to the enum names, iota enums convert by position only when the listed values are their positions (real setIsIota), "
+         "enum names are distinct identifiers (symbolic constant names with underscores); through dart.Generate on every named type skeleton of depth<=2: no file imports itself, every imported file exists, JSON helpers are defined once per file and "
+         "every helper used is defined in the file or in an imported file. Two listed known findings (enum prefix trimming; helper of a basic type reached only through a named type of another file). Union dispatch is covered under C02.",
+         "DESIGN.md section 5 (C06)", ""),
+ "C15": ("Bug hunting only for the headline (termination and run-time well-formedness of the generated functions need executing them). Decided text clauses of randdata: the union function picks by rand.Intn(n) among exactly one call per member (symbolic member names); "
+         "the struct function assigns exactly the exported fields not tagged gomacro-data:\"ignore\" (symbolic names); fixed arrays are filled over their whole length and slices populated; the enum function picks among exactly the exported constants. "
+         "NOT decided: termination on self-recursive types, variation between calls, the C02 round trip.",
+         "DESIGN.md section 5 (C15)", ""),
  "C04": ("Bug hunting only for the headline (evaluation under PostgreSQL semantics is not encoded). Decided text clauses of generator/sql/json.go: for every type skeleton of depth<=2 every gomacro_validate_json_* function a body calls is defined exactly once and the "
          "column type's own validator is defined; slices accept null and fixed arrays have jsonb_array_length(data) = Len, non-arrays rejected, elements validated; maps accept null, require objects, validate values; the enum validator lists exactly the constant values "
          "(ints as written, strings single-quoted, symbolic string values); the struct validator rejects unknown keys and validates every exported field under its JSON key (symbolic names/tags). One listed known finding (validator name collisions across packages).",
